@@ -50,7 +50,12 @@
 (*                                                                         *)
 (* Left open by the statement and therefore constants (the check accepts   *)
 (* every value): RetryFailed - a message repeating the hash whose status   *)
-(* is FAILED is handled again (the code) or skipped.                       *)
+(* is FAILED is handled again (the code) or skipped; ZeroReports - whether *)
+(* a usage report whose figures are all zero is sent: "keys" is the code   *)
+(* (the tracker's two maps are Go maps; a report is built iff either has   *)
+(* an entry and sampling a non-zero counter makes one even for a zero      *)
+(* delta - an absent entry is -1 here, as in Usage.tla), "never" the other *)
+(* natural convention.                                                     *)
 (*                                                                         *)
 (* Faithful = TRUE adds what agent.go does where it departs from the       *)
 (* statement, as named deviations:                                         *)
@@ -68,6 +73,7 @@ CONSTANTS Catalogue,    \* [hash -> [kind, c, r]]: the remote configurations the
           Steps,        \* growth increments
           Outcomes,     \* answers of the client to a usage report: subset of {"ok","fail","pendok","hold"}
           RetryFailed,  \* TRUE: the code (same hash, status FAILED -> handled again)
+          ZeroReports,  \* "keys": the code (a report is sent iff the tracker has an entry, even if it is zero) | "never"
           Faithful      \* TRUE: include the deviations of the code
 
 VARIABLES running,   \* [c, r]: the delivered layers in force ("-": the file alone)
@@ -104,6 +110,10 @@ Records(c) == c # "N"          \* OpAMP.RecordUsage of a config body
 NoStatus == [hash |-> "none", st |-> "UNSET", err |-> FALSE]
 Zero == [s \in Signals |-> 0]
 NotOffered == [on |-> FALSE, u |-> Zero]
+\* an absent map entry of the usage tracker, and the usage an entry stands for
+None == IF ZeroReports = "keys" THEN 0 - 1 ELSE 0
+Empty == [s \in Signals |-> None]
+V(x) == IF x < 0 THEN 0 ELSE x
 Loops == {"health", "usage"}
 
 \* ---------------------------------------------------------------- Reload
@@ -201,39 +211,38 @@ HealthTick ==
                  ELSE UNCHANGED <<lastHealth, healthUp>>
             \* usageTracker.Add per signal with the sum of its counters; a zero reading is ignored
             /\ IF Records(running.c)
-                 THEN /\ cur' = [s \in Signals |-> IF Total(s) = 0 THEN cur[s] ELSE cur[s] + (Total(s) - seen[s])]
+                 THEN /\ cur' = [s \in Signals |-> IF Total(s) = 0 THEN cur[s] ELSE V(cur[s]) + (Total(s) - seen[s])]
                       /\ seen' = [s \in Signals |-> IF Total(s) = 0 THEN seen[s] ELSE Total(s)]
                  ELSE UNCHANGED <<cur, seen>>
        ELSE UNCHANGED <<lastHealth, healthUp, cur, seen>>
   /\ Quiet /\ ConfigUnch /\ UNCHANGED <<alive, ready, cum, pend, offered, delivered, phase, live, stopped>>
   /\ act' = [name |-> "HealthTick"]
 
-Rep == [s \in Signals |-> cur[s] + pend[s]]
+Rep == [s \in Signals |-> V(cur[s]) + V(pend[s])]
+NothingToReport == IF ZeroReports = "keys" THEN cur = Empty /\ pend = Empty ELSE Rep = Zero
+\* usageTracker.NewReport: the unreported usage joins the unconfirmed usage
+Merged == [s \in Signals |-> IF cur[s] = None THEN pend[s] ELSE V(pend[s]) + V(cur[s])]
 
 \* one round of reportUsagePeriodically(): NewReport, SendCustomMessage, wait for the message to be sent
 UsageTick(o) ==
   /\ "usage" \in Feat /\ phase = "idle" /\ ~stopped
-  /\ IF "usage" \in live
-       THEN \/ \* errNoData: nothing is offered.  Whether a report of zeros is sent is left open
-               \* (the tracker's maps may or may not have keys; see Usage.tla).
-               /\ Rep = Zero
-               /\ offered' = NotOffered
-               /\ UNCHANGED <<cur, pend, delivered, phase>>
-            \/ /\ offered' = [on |-> TRUE, u |-> Rep]
-               /\ cur' = Zero
-               /\ CASE o \in {"ok", "pendok"} -> /\ delivered' = [s \in Signals |-> delivered[s] + Rep[s]]
-                                                 /\ pend' = Zero /\ phase' = "idle"
-                    [] o = "fail"             -> /\ pend' = Rep /\ UNCHANGED <<delivered, phase>>
-                    [] o = "hold"             -> /\ pend' = Rep /\ phase' = "inflight" /\ UNCHANGED delivered
-       ELSE /\ offered' = NotOffered /\ UNCHANGED <<cur, pend, delivered, phase>>
+  /\ IF "usage" \in live /\ ~NothingToReport
+       THEN /\ offered' = [on |-> TRUE, u |-> Rep]
+            /\ cur' = Empty
+            /\ CASE o \in {"ok", "pendok"} -> /\ delivered' = [s \in Signals |-> delivered[s] + Rep[s]]
+                                              /\ pend' = Empty /\ phase' = "idle"
+                 [] o = "fail"             -> /\ pend' = Merged /\ UNCHANGED <<delivered, phase>>
+                 [] o = "hold"             -> /\ pend' = Merged /\ phase' = "inflight" /\ UNCHANGED delivered
+       ELSE \* errNoData (or the loop is gone): nothing is offered
+            /\ offered' = NotOffered /\ UNCHANGED <<cur, pend, delivered, phase>>
   /\ Quiet /\ ConfigUnch /\ HealthUnch /\ UNCHANGED <<cum, seen, live, stopped>>
   /\ act' = [name |-> "UsageTick", o |-> o]
 
 \* the client has sent the held message: completeSend
 Ack ==
   /\ "usage" \in Feat /\ phase = "inflight" /\ "usage" \in live /\ ~stopped
-  /\ delivered' = [s \in Signals |-> delivered[s] + pend[s]]
-  /\ pend' = Zero /\ phase' = "idle"
+  /\ delivered' = [s \in Signals |-> delivered[s] + V(pend[s])]
+  /\ pend' = Empty /\ phase' = "idle"
   /\ Quiet /\ ConfigUnch /\ HealthUnch /\ UNCHANGED <<cum, seen, cur, offered, live, stopped>>
   /\ act' = [name |-> "Ack"]
 
@@ -264,7 +273,7 @@ Init == /\ running = [c |-> "-", r |-> "-"]
         /\ alive = FALSE /\ ready = FALSE /\ lastHealth = "none"
         /\ healthUp = [healthy |-> FALSE]               \* connect(): SetHealth(false)
         /\ cum = [m \in Counters |-> 0]
-        /\ seen = Zero /\ cur = Zero /\ pend = Zero /\ delivered = Zero
+        /\ seen = Zero /\ cur = Empty /\ pend = Empty /\ delivered = Zero
         /\ offered = NotOffered /\ phase = "idle"
         /\ live = Loops /\ stopped = FALSE
         /\ act = [name |-> "Init"]
@@ -283,7 +292,7 @@ TypeOK == /\ running \in Pairs /\ effSent \in Pairs
           /\ alive \in BOOLEAN /\ ready \in BOOLEAN /\ lastHealth \in {"none", "T", "F"}
           /\ healthUp \in [healthy : BOOLEAN]
           /\ cum \in [Counters -> 0 .. MaxCum]
-          /\ \A s \in Signals : seen[s] >= 0 /\ cur[s] >= 0 /\ pend[s] >= 0 /\ delivered[s] >= 0
+          /\ \A s \in Signals : seen[s] >= 0 /\ cur[s] >= None /\ pend[s] >= None /\ delivered[s] >= 0
           /\ offered.on \in BOOLEAN /\ (~offered.on => offered.u = Zero)
           /\ phase \in {"idle", "inflight"} /\ live \subseteq Loops /\ stopped \in BOOLEAN
 
@@ -324,11 +333,11 @@ HealthFollows ==
   [][(act'.name = "HealthTick" /\ "health" \in live) => (healthUp'.healthy = (alive' /\ ready'))]_vars
 \* (3) usage: acknowledged + unconfirmed + unreported + unsampled = counter growth
 Conservation ==
-  \A s \in Signals : delivered[s] + pend[s] + cur[s] + (Total(s) - seen[s]) = Total(s)
+  \A s \in Signals : delivered[s] + V(pend[s]) + V(cur[s]) + (Total(s) - seen[s]) = Total(s)
 NoDoubleCount == \A s \in Signals : delivered[s] <= Total(s)
 \* (3) a failed or held send loses nothing: everything sampled and unacknowledged is in the next report
 ReportCarriesAll ==
-  [][(act'.name = "UsageTick" /\ offered'.on) => (offered'.u = [s \in Signals |-> cur[s] + pend[s]])]_vars
+  [][(act'.name = "UsageTick" /\ offered'.on) => (offered'.u = [s \in Signals |-> V(cur[s]) + V(pend[s])])]_vars
 OnlySentDelivers ==
   [][(delivered' # delivered) => (act'.name = "Ack" \/ (act'.name = "UsageTick" /\ act'.o \in {"ok", "pendok"}))]_vars
 \* (4) Stop ends the agent's goroutines (fails for Faithful = TRUE: MC_OpAMP_code_cex.cfg)
@@ -354,6 +363,7 @@ CatBig == [h \in {"h1", "h2", "h3", "h4", "h5", "h6", "h7", "h8", "h9", "h10", "
                 [] h = "h11" -> Msg("X", "X")     \* both refused
                 [] OTHER -> CatFull[h]]
 CatOne == [h \in {"h1", "h3"} |-> CatQuick[h]]
+CatH1 == [h \in {"h1"} |-> CatQuick[h]]
 CatUsage == [h \in {"hn", "h1"} |-> IF h = "hn" THEN Msg("N", "-") ELSE Msg("B", "-")]
 CatNone == [h \in {} |-> Msg("-", "-")]
 
